@@ -526,8 +526,8 @@ def _run_chain(ir, plan: dict, bm: Built, casedir: str, names: dict) -> list:
                 continue          # nothing was touched: the chain goes on from the same files
             break
         _observe(ir, obs, info, model_path, bm.desc, be, before, not_data)
-        if not obs["loaded"]:
-            break
+        if not obs["loaded"] or not all(obs["beq"]):
+            break             # later steps would only repeat the damage
         # auxiliary (not part of the verdict): the tensor objects the model holds again after an in-place save
         if mode == "inplace" and be == "raw":
             for i, t in enumerate(objs):
